@@ -1,7 +1,7 @@
 SOURCES = ['Http.cpp', 'HttpServer.cpp', 'SocketServer.cpp', 'Socket.cpp', 'File.cpp', 'TextFile.cpp', 'Date.cpp', 'Xdl.cpp', 'Var.cpp', 'Path.cpp', 'String.cpp', 'unicodedata.cpp', 'util.cpp', 'WebSocket.cpp', 'SHA1.cpp']
-HARNESS = 'h_c10.cpp'
-ENV = ['vlibc.c', 'vsock.c', 'vstdio.c']
-NATIVE_EXTRA = ['vsock.c']
+GROUPS = [{'name': 'main', 'sources': SOURCES, 'harness': 'h_c10.cpp', 'env': ['vlibc.c', 'vsock.c', 'vstdio.c'], 'native_extra': ['vsock.c']},
+          # concurrency clause: real SocketServer threads on the thread model over the listening-socket model; natively real loopback sockets
+          {'name': 'conc', 'sources': SOURCES, 'harness': 'h_c10c.cpp', 'env': ['vlibc.c', 'vsrv.c', 'vstdio.c'], 'native_extra': ['vsrv_native.cpp']}]
 
 KIND = {0: 'byte body', 1: 'byte body with status 201', 2: 'JSON body', 3: 'file body', 4: 'streamed chunk-framed body', 5: 'file range'}
 
@@ -26,6 +26,9 @@ def instances(tier):
             if q and (b > 3 and e > 3 and e < n - 1): continue
             out.append({'entry': 'h_exchange', 'params': [0, 5, n, b, e],
                         'bound': 'GET with Range: bytes=%d-%d on a %d-byte file of symbolic bytes' % (b, e, n)})
+    for kind in (0, 1):
+        out.append({'entry': 'h_two_clients', 'group': 'conc', 'params': [1 if q else 2, kind, 3 if q else 4],
+                    'bound': 'two clients in flight against HttpServer on SocketServer (accept thread + 2 handler threads), %s of %d symbolic bytes each; every interleaving with at most %d preemption(s) at system calls and atomic operations, fair hand-over at time-outs' % (('file bodies', 'byte bodies')[kind], 3 if q else 4, 1 if q else 2)})
     for f0 in (0, 1, 2):
         for f1 in (0, 1, 2):
             out.append({'entry': 'h_keepalive', 'params': [f0, f1], 'bound': 'two requests back to back on one kept-alive server connection, framing %s then %s, symbolic bodies and query values' % (('no body', 'Content-Length', 'chunked')[f0], ('no body', 'Content-Length', 'chunked')[f1])})
@@ -34,7 +37,7 @@ def instances(tier):
 
 BOUNDS = {'quick': 'one request/response exchange between Http::request and HttpServer::serve(Socket): request bodies of 0/1/3 symbolic bytes, responses of 0/1/4 symbolic bytes as byte body, 201, JSON, file, chunk-framed stream; every range b != e with b <= 7, e <= 8 on a 6-byte file (subset); symbolic printable header and query values',
           'thorough': 'request bodies to 8 bytes, responses to 8 bytes, every range b != e with b <= 9, e <= 10 on an 8-byte file'}
-OUTSIDE = ['bodies longer than 8 bytes (the 16000/128000-byte block boundaries are not reached)', 'concurrent clients and handler threads (the server runs synchronously inside the socket model when the client waits for input)',
+OUTSIDE = ['bodies longer than 8 bytes (the 16000/128000-byte block boundaries are not reached)', 'more than two concurrent clients, more than 2 preemptions, races between plain accesses',
            'kept-alive client connections (Http::request always opens a fresh one; the server side of a kept-alive connection is covered with a raw client)', 'redirects, TLS, multipart uploads, real sockets and timeouts']
 ASSUMPTIONS = ['sockets = env/vsock.c (connect() pairs the client with a server socket, the registered server callback runs to completion when the client first waits for input, then the peer is closed)',
                'files = env/vstdio.c; getaddrinfo returns one IPv4 address; clock advances per query']
